@@ -74,6 +74,14 @@ def generate(rng, tier):
             elif r < 0.6:
                 vals = [None if rng.random() < 0.35 else v for v in vals]
         groups.append(vals)
+    if kind == "float" and helper in ("min", "max", "sum", "first", "last") and rng.random() < 0.2:
+        # a group holding nothing but one infinity (the identity of the opposite reduction), missing values in it or elsewhere:
+        # the case in which "replace missing by the identity, then reduce" differs from "remove missing, then reduce"
+        e = rng.choice([math.inf, -math.inf])
+        groups[0] = [e] * rng.choice([1, 2, 3]) + ([None] if rng.random() < 0.5 else [])
+        rng.shuffle(groups[0])
+        if len(groups) > 1 and rng.random() < 0.7:
+            groups[-1] = groups[-1] + [None]
     if helper == "mode" and kind in ("int", "float") and rng.random() < 0.05:
         # a long group (size-dependent code paths) with a tie whose first-encountered value is not the smallest
         groups = [[7, 3] * 600 + [5] if kind == "int" else [7.5, 3.5] * 600 + [5.5]] + groups[:1]
